@@ -311,6 +311,18 @@ def ser(x):
     return rec("other", [ord(ch) for ch in tp.__name__[:24]])
 
 
+VIOLATION_FILE_CAP = 200
+
+
+def capped(ctx):
+    """True once the run has written VIOLATION_FILE_CAP replay files: further violations of a badly
+    broken tree are counted (the verdict stays VIOLATED), not written one file each."""
+    if len(ctx.violations) >= VIOLATION_FILE_CAP:
+        ctx.extra["violations_beyond_file_cap"] = ctx.extra.get("violations_beyond_file_cap", 0) + 1
+        return True
+    return False
+
+
 def show(v):
     """Readable rendering of a value term for samples / messages."""
     try:
